@@ -18,6 +18,8 @@ From Verif Require Modbus.C19Check.
 
 From Verif Require Auth.Model.
 
+From Verif Require C15Check.
+
 (* area id -> checker *)
 Definition dispatch (area : N) (v : val) : N :=
   match area with
@@ -35,6 +37,7 @@ Definition dispatch (area : N) (v : val) : N :=
   | 18%N => Modbus.C18Check.check_val v
   | 19%N => Modbus.C19Check.check_val v
   | 9%N => Auth.Model.check_val v
+  | 15%N => C15Check.check_val v
   | _ => 98%N
   end.
 
